@@ -62,6 +62,8 @@ func runC09(c *Ctx) {
 	c.socketWritersRule("R3", writeFn)
 	r.Rule("R5", "every line handed to the client is enqueued: in each exported command method, no condition that dominates the call of Raw (or of the command / helper that sends) is computed from the client's run-time state - only from the method's arguments and the Config - so no command is silently dropped because of what was sent or received before")
 	c.commandsAlwaysSendRule("R5")
+	r.Rule("R6", "the connection stays usable for writing: the send goroutine, and everything it calls, blocks only on the receive from the outbound queue, on the connection context and on timers - it never waits for another goroutine of the library (which may itself be blocked in Raw on a full queue: a cycle in which nothing is written again)")
+	c.senderWaitsForNobodyRule("R6", sender)
 	if writeFn != nil {
 		c.writeCompleteRule("R3", writeFn)
 	}
@@ -698,6 +700,8 @@ func runC14(c *Ctx) {
 		})
 	}
 	r.Floor("R1", "accesses to tracker state", nAcc, 80)
+	r.Rule("R6", "internal records never outlive the critical section inside a value: a *nick, *channel or tracker pointer boxed into an interface goes straight into the argument list of a logging / fmt call made at that point with the tracker lock held - it is not stored, captured by a closure, passed to a module function or to a deferred call (a warning queued under the lock and formatted after the unlock reads the record's maps unlocked)")
+	c.internalsStayInsideRule("R6", funcs, lock, ls)
 	// exported methods: one critical section
 	ms := c.SSA.MethodSets.MethodSet(types.NewPointer(trk))
 	nExp := 0
@@ -1481,4 +1485,167 @@ func (c *Ctx) readsOnlyConfig(fn *ssa.Function, depth int) bool {
 		}
 	})
 	return ok
+}
+
+// senderWaitsForNobodyRule: C09.R6. The goroutine that empties the outbound
+// queue never waits for a goroutine that may be filling it: in the send
+// goroutine and everything it calls, the only blocking channel operations are
+// the receive from the outbound queue, waits on the connection context and
+// timers. A hand-shake with another connection goroutine (say, telling the
+// ping goroutine about each written line over an unbuffered channel) closes a
+// cycle as soon as that goroutine blocks in Raw on a full queue: nothing is
+// ever written again although the connection stays up.
+func (c *Ctx) senderWaitsForNobodyRule(rule string, sender *ssa.Function) {
+	r, a := c.R, c.A
+	if !r.Anchor(rule, "send goroutine", sender != nil) {
+		return
+	}
+	reach := c.Closure([]*ssa.Function{sender}, func(from *ssa.Function, e Edge) bool {
+		return e.Kind != EdgeGo && c.InModuleFn(e.Callee) && e.Callee.Package() == c.Client && e.Callee != a.Teardown && e.Callee != a.TeardownCore
+	})
+	n := 0
+	for _, fn := range reach.Order {
+		if !c.InModuleFn(fn) {
+			continue
+		}
+		okOp := func(kind string, ch ssa.Value) bool {
+			if kind == "recv" && (c.ChanMayBe(ch, a.Out) || c.isCtxDoneChan(ch) || isTimerChan(ch)) {
+				return true
+			}
+			return false
+		}
+		seenSel := map[*ssa.Select]bool{}
+		for _, op := range ChanOps(fn) {
+			if op.Kind == "close" || !op.Blocking {
+				continue
+			}
+			if op.InSelect {
+				if seenSel[op.Sel] {
+					continue
+				}
+				seenSel[op.Sel] = true
+				n++
+				bad := ""
+				for _, st := range op.Sel.States {
+					kind := "recv"
+					if st.Dir == types.SendOnly {
+						kind = "send"
+					}
+					if !okOp(kind, st.Chan) {
+						bad = kind + " on " + st.Chan.Name() + " (" + shortType(st.Chan.Type()) + ")"
+					}
+				}
+				r.Add(rule, fmt.Sprintf("sender-waits:%s:select#%d", c.FuncKey(fn), n), c.InstrPos(op.In), c.FuncKey(fn), "the send goroutine waits only for the outbound queue, the connection context and timers", bad == "", "select case: "+bad+" [reached via "+c.ChainString(reach.Funcs[fn])+"]")
+				continue
+			}
+			n++
+			r.Add(rule, fmt.Sprintf("sender-waits:%s:%s#%d", c.FuncKey(fn), op.Kind, n), c.InstrPos(op.In), c.FuncKey(fn), "the send goroutine waits only for the outbound queue, the connection context and timers", okOp(op.Kind, op.Chan), op.Kind+" on "+op.Chan.Name()+" [reached via "+c.ChainString(reach.Funcs[fn])+"]")
+		}
+	}
+	r.Floor(rule, "blocking channel operations of the send goroutine", n, 1)
+}
+
+// internalsStayInsideRule: C14.R6. The tracker's own records (*nick,
+// *channel, the tracker) never leave the critical section inside a value
+// somebody may look at later: wherever such a pointer is boxed into an
+// interface (to be formatted), the box goes straight into the argument list
+// of a call of package logging or fmt made at that point - under the lock the
+// record's String method needs - and is not stored, captured by a closure or
+// handed to a function of the module. A warning queued under the lock and
+// formatted by a deferred flush after the unlock walks the record's maps
+// while another goroutine changes them.
+func (c *Ctx) internalsStayInsideRule(rule string, funcs []*ssa.Function, lock string, ls *Locksets) {
+	r := c.R
+	internal := map[*types.Named]bool{}
+	for _, n := range []string{"stateTracker", "nick", "channel"} {
+		if t := c.Named(c.State, n); t != nil {
+			internal[t] = true
+		}
+	}
+	isInternalPtr := func(t types.Type) bool {
+		pt, ok := t.Underlying().(*types.Pointer)
+		if !ok {
+			return false
+		}
+		nt, _ := pt.Elem().(*types.Named)
+		return nt != nil && internal[nt]
+	}
+	n := 0
+	for _, fn := range funcs {
+		if ls.Dead[fn] {
+			continue
+		}
+		funcInstrs(fn, func(in ssa.Instruction) {
+			mi, ok := in.(*ssa.MakeInterface)
+			if !ok || !isInternalPtr(mi.X.Type()) {
+				return
+			}
+			if _, isIface := mi.Type().Underlying().(*types.Interface); !isIface {
+				return
+			}
+			// boxing the tracker itself as its public interface (NewTracker's result) is how it is handed out
+			if nt, _ := mi.Type().(*types.Named); nt != nil && nt.Obj().Name() == "Tracker" {
+				return
+			}
+			n++
+			okU, why := true, "formatted on the spot by package logging / fmt under the tracker lock"
+			var sinks []ssa.CallInstruction
+			for _, ref := range *mi.Referrers() {
+				switch t := ref.(type) {
+				case *ssa.DebugRef:
+				case *ssa.Store:
+					// the variadic argument array of a call
+					ia, isIA := t.Addr.(*ssa.IndexAddr)
+					if !isIA {
+						okU, why = false, "the boxed record is stored at "+c.InstrPos(t)
+						continue
+					}
+					al, isAl := ia.X.(*ssa.Alloc)
+					if !isAl {
+						okU, why = false, "the boxed record is stored into "+ia.X.String()
+						continue
+					}
+					for _, r2 := range *al.Referrers() {
+						sl, isSl := r2.(*ssa.Slice)
+						if !isSl {
+							continue
+						}
+						for _, r3 := range *sl.Referrers() {
+							if ci, isCI := r3.(ssa.CallInstruction); isCI {
+								sinks = append(sinks, ci)
+							} else if _, isD := r3.(*ssa.DebugRef); !isD {
+								okU, why = false, "the argument list holding the record is used by "+r3.String()
+							}
+						}
+					}
+				case ssa.CallInstruction:
+					sinks = append(sinks, t)
+				default:
+					okU, why = false, "the boxed record is used by "+ref.String()
+				}
+			}
+			for _, s := range sinks {
+				cc := s.Common()
+				callee := cc.StaticCallee()
+				if _, isCall := s.(*ssa.Call); !isCall {
+					okU, why = false, "the record is handed to a deferred or go call at "+c.InstrPos(s)
+					continue
+				}
+				if callee == nil || callee.Pkg == nil {
+					okU, why = false, "the record is handed to a dynamic call at "+c.InstrPos(s)
+					continue
+				}
+				pp := callee.Pkg.Pkg.Path()
+				if callee.Package() != c.Logging && pp != "fmt" {
+					okU, why = false, "the record is handed to "+c.FuncKey(callee)+", which may keep it"
+					continue
+				}
+				if ls.Held(s, lock) != 'W' {
+					okU, why = false, "the record is formatted at "+c.InstrPos(s)+" without the tracker lock"
+				}
+			}
+			r.Add(rule, fmt.Sprintf("internal-boxed:%s#%d", c.FuncKey(fn), n), c.InstrPos(mi), c.FuncKey(fn), "an internal record is only ever formatted on the spot, under the lock", okU, why)
+		})
+	}
+	r.Add(rule, "internal-boxed-examined", "-", "", "places where an internal record is boxed into an interface", true, fmt.Sprintf("%d", n))
 }
